@@ -155,8 +155,9 @@ instance : Monad M where
 def failM {α : Type} : M α := fun _ => Option.none
 /-- run a step that produces no register -/
 def stepM (s : Step) : M Unit := fun st => (s.run st).map fun st' => ((), st')
-/-- run a step that appends one register; returns its index -/
-def pushM (s : Step) : M Nat := fun st => (s.run st).map fun st' => (st.pool.length, st')
+/-- run a step that appends one register; returns its index (read off the new state, so that the
+    old state is not kept alive and the register array is updated in place) -/
+def pushM (s : Step) : M Nat := fun st => (s.run st).map fun st' => (st'.pool.size - 1, st')
 def readM (i : Nat) : M V := fun st => (st.pool[i]?).map fun v => (v, st)
 
 structure Env where
